@@ -201,6 +201,11 @@ class Chipset(object):
                     time.sleep(0.001)
                 raise error
 
+        if len(frame) < 7 or (frame.startswith(self.SOF + b'\xFF\xFF')
+                              and len(frame) < 10):
+            self.log.error("frame too short")
+            raise IOError(errno.EIO, os.strerror(errno.EIO))
+
         if frame.startswith(self.SOF + b'\xFF\xFF'):
             # extended frame
             if sum(frame[5:8]) & 0xFF != 0:
